@@ -5,6 +5,8 @@ mod alloc;
 mod tok;
 mod m_vec;
 mod m_arc;
+mod m_intres;
+mod m_cstr;
 
 use std::io::{BufRead, Write};
 
@@ -58,6 +60,8 @@ fn main() {
         let rows = match hdr[0] {
             10 => m_arc::run(&hdr[1..], &rows_in, &mut mon),
             11 => m_vec::run(&hdr[1..], &rows_in, &mut mon),
+            13 => m_intres::run(&hdr[1..], &rows_in, &mut mon),
+            14 => m_cstr::run(&hdr[1..], &rows_in, &mut mon),
             _ => vec![vec![-3]],
         };
         alloc::domain(0);
